@@ -9,6 +9,7 @@ INVARIANT TypeOK
 INVARIANT StableSortOK
 INVARIANT SortedIsEnumeration
 INVARIANT OrderIndependence
+INVARIANT OneMember
 INVARIANT ReportVary
 PROPERTY Forward
 CHECK_DEADLOCK FALSE
